@@ -148,6 +148,12 @@ impl RK4 {
                 break;
             }
 
+            // Accumulated steps of a few ulps can land exactly on xend without the last-step
+            // test below having fired; nothing is left to integrate then
+            if (x - xend) * h.signum() >= 0.0 {
+                break;
+            }
+
             // Adjust last step so we land exactly on xend
             let mut last = false;
             let mut h = h;
